@@ -144,6 +144,77 @@ def k3_feature(ctx):
     return {'ok': True, 'n': len(defs), 'problems': problems, 'sample': smgen.dsl_defn(defs[0])}
 
 
+
+# ---------------------------------------------------------------- C14: context, data and payload types that are not one identifier
+
+# (context type or None, data type of A, data type of B, payload type, a value of the payload type, a value of B's data type)
+TYPE_CASES = [
+    (None, 'Vec<u8>', '(u8, u16)', '[u8; 4]', '[1u8; 4]', '(1u8, 2u16)'),
+    ('::std::collections::HashMap<u8, Vec<u8>>', 'Option<Box<u32>>', "&'static str", '::std::string::String', '::std::string::String::new()', '"x"'),
+    ('(u8, u16)', 'crate::D0', '[Option<u8>; 2]', "Vec<(u8, &'static str)>", 'Vec::new()', '[None, Some(1u8)]'),
+    (None, '::core::option::Option<(u8, [u16; 2])>', 'Box<dyn Fn(u8) -> u8 + Send + Sync>', '&\'static [u8]', '&[1u8, 2u8]', None),
+]
+
+
+def types_module(i, case, is_async):
+    cty, da, db, pl, plv, dbv = case
+    name = 'T%d' % i
+    box_default = db.startswith('Box<dyn')
+    L = ['#![allow(non_camel_case_types, non_snake_case, dead_code, unused_variables, unused_mut, unused_imports, private_interfaces)]',
+         'use state_machines::state_machine;']
+    dsl = 'name: %s, initial: A,%s%s dynamic: true, states: [A(%s), B%s, K], events { go { payload: %s, guards: [ok], transition: { from: A, to: B } } ' \
+          'back { before: [note], transition: { from: [B, K], to: A } } }' % (
+              name, (' context: %s,' % cty) if cty else '', ' async: true,' if is_async else '', da,
+              '' if box_default else '(%s)' % db, pl)
+    L.append('state_machine! {\n    %s\n}' % dsl)
+    af = 'async fn' if is_async else 'fn'
+    if cty:
+        L.append('impl<S> %s<S> { %s ok(&self, _c: &%s, _p: &%s) -> bool { true } %s note(&self) {} }' % (name, af, cty, pl, af))
+        MT, DM, ctxv = (lambda st: '%s<%s>' % (name, st)), 'Dynamic%s' % name, '<%s as Default>::default()' % cty
+    else:
+        L.append('impl<C, S> %s<C, S> { %s ok(&self, _c: &C, _p: &%s) -> bool { true } %s note(&self) {} }' % (name, af, pl, af))
+        MT, DM, ctxv = (lambda st: '%s<u8, %s>' % (name, st)), 'Dynamic%s<u8>' % name, '7u8'
+    aw = '.await' if is_async else ''
+    fk = 'async fn' if is_async else 'fn'
+    L.append('fn p_new() -> %s { <%s>::new(%s) }' % (MT('A'), MT('A'), ctxv))
+    L.append('fn p_a(m: &%s) -> &%s { m.a_data() }' % (MT('A'), da))
+    L.append('fn p_am(m: &mut %s) -> &mut %s { m.a_data_mut() }' % (MT('A'), da))
+    if not box_default:
+        L.append('fn p_b(m: &%s) -> &%s { m.b_data() }' % (MT('B'), db))
+        L.append('fn p_sb(m: &%s) -> Option<&%s> { m.state_data_b() }' % (MT('A'), db))
+    L.append('%s p_go(m: %s) -> bool { m.go(%s)%s.is_ok() }' % (fk, MT('A'), plv, aw))
+    L.append('%s p_back(m: %s) -> %s { match m.back()%s { Ok(n) => n, Err((_o, _e)) => panic!() } }' % (fk, MT('K'), MT('A'), aw))
+    L.append('%s p_dyn(d: &mut %s) { let _ = d.handle(%sEvent::Go(%s))%s; let _: Option<&%s> = d.a_data(); let _: &str = d.current_state(); }'
+             % (fk, DM, name, plv, aw, da))
+    if dbv and not box_default:
+        L.append('fn p_set(d: &mut %s) { let _ = d.set_b_data(%s); }' % (DM, dbv))
+    L.append('fn p_conv(m: %s) -> Result<%s, %s> { m.into_dynamic().into_a() }' % (MT('A'), MT('A'), DM))
+    return ('ty%d%s' % (i, 'a' if is_async else 's'), '\n'.join(L) + '\n', dsl)
+
+
+def k3_types(ctx):
+    mods, dsls = [], {}
+    for i, case in enumerate(TYPE_CASES):
+        for is_async in (False, True):
+            nm, src, dsl = types_module(i, case, is_async)
+            mods.append((nm, src))
+            dsls[nm] = dsl
+    crate = os.path.join(ctx.dir, 'k3t')
+    ties_k3.write_lib_crate(crate, mods, extra_root=ties_k3.ROOT_TYPES)
+    rc, diags, se = ties_k3.cargo_check(crate, target='target-k3f')
+    problems, bad = [], {}
+    for dg in diags:
+        for (fn, ln) in dg['locs']:
+            m = re.match(r'src/(ty\d+[as])\.rs', fn)
+            if m:
+                bad.setdefault(m.group(1), []).append('%s %s' % (dg['code'], dg['msg'][:200]))
+                break
+    for nm, msgs in sorted(bad.items()):
+        problems.append({'dsl': dsls[nm], 'what': 'definition with compound context/data/payload types does not compile as documented: ' + msgs[0]})
+    if rc != 0 and not diags:
+        problems.append({'dsl': None, 'what': 'cargo failed: ' + se[-500:]})
+    return {'ok': True, 'n': len(mods), 'problems': problems, 'sample': dsls[mods[0][0]]}
+
 # ---------------------------------------------------------------- C17: #![no_std], zero-sized markers, machine = context
 
 NOSTD_ROOT = '''
@@ -460,6 +531,13 @@ def run(ctx, prop, what, rep):
         rep.samples.append({'k3_feature_sample': f['sample']})
         for p in f['problems'][:6]:
             rep.violate('k3', p['what'], {'kind': 'k3-feature', 'dsl': p['dsl']})
+        t = ctx.stage('k3_types', lambda: k3_types(ctx))
+        rep.cov['k3_compound_types'] = {'definitions_compiled_with_type_probes': t['n'], 'problems': len(t['problems'])}
+        rep.evals += t['n']
+        rep.distinct += t['n']
+        rep.samples.append({'k3_types_sample': t['sample']})
+        for p in t['problems'][:6]:
+            rep.violate('k3', p['what'], {'kind': 'k3-types', 'dsl': p['dsl']})
         for kp in ctx.stage('k3_known_probes', lambda: k3_known_probes(ctx)):
             rep.violate('k3', 'definition within the documented rules does not compile (%s): %s' % (kp['key'], kp['rustc'][:1]),
                         {'kind': 'k3-known-probe', 'key': kp['key'], 'dsl': kp['dsl']})
